@@ -170,7 +170,68 @@ def _run_callsite(sc, tape):
                        'fail': sc['fail'], 'fetches': len(shared['log'])}}
 
 
+def _gen_nested(t):
+    """fan-outs inside fan-outs (a layer renderer whose items are tile creators that query several sources): many outer items
+    at once, each running an inner fan-out of its own"""
+    return {'kind': 'nested', 'outer': t.pick([3, 6, 21, 24]), 'inner': t.pick([2, 2, 3]),
+            'policy': t.pick([['random'], ['sticky', 0.5], ['sticky', 0.2]]), 'yields': t.randint(0, 2),
+            'fail_inner': t.pick([None, None, [t.choice(24), t.choice(3)]])}
+
+
+def _run_nested(sc, tape):
+    from mapproxy.util import async_
+    from simkit.sched import simulate_module_primitives
+    w = World(tape, policy=tuple(sc['policy']), step_cap=400000)
+    sched = w.sched
+    simulate_module_primitives(w, async_)
+    out = {}
+    n, m = sc['outer'], sc['inner']
+    fail = sc.get('fail_inner')
+    if fail is not None and (fail[0] >= n or fail[1] >= m):
+        fail = None
+
+    def inner(i, j):
+        for _ in range(sc['yields']):
+            sched.yield_point('inner', (i, j))
+        if fail is not None and [i, j] == list(fail):
+            raise ItemError('inner %d/%d' % (i, j))
+        return i * 100 + j
+
+    def outer(i):
+        return list(async_.imap(lambda j: inner(i, j), list(range(m))))
+
+    def caller():
+        try:
+            out['res'] = list(async_.ThreadPool(n).map(outer, list(range(n))))
+        except ItemError as ex:
+            out['raised'] = ex
+    with w:
+        sched.spawn(caller, 'caller', w.main_proc)
+        try:
+            outcome = w.run_tasks()
+        except RuntimeError:
+            outcome = 'teardown-hang'
+        for t_ in sched.tasks:
+            if t_.exc is not None and t_.name == 'caller':
+                raise t_.exc
+    v = None
+    if 'res' not in out and 'raised' not in out:
+        v = {'sig': 'C15:nested-hang', 'msg': '%d outer items each with an inner fan-out over %d items: the call did not terminate '
+             '(%s, blocked: %r)' % (n, m, outcome, sched.stuck_info)}
+    elif fail is None:
+        exp = [[i * 100 + j for j in range(m)] for i in range(n)]
+        if out.get('res') != exp:
+            v = {'sig': 'C15:nested-wrong-results', 'msg': 'nested fan-out returned %r, expected %r' % (out.get('res') or out.get('raised'), exp)}
+    elif 'raised' not in out:
+        v = {'sig': 'C15:nested-swallowed', 'msg': 'inner item %s failed but the nested fan-out returned %r' % (fail, out.get('res'))}
+    return {'violation': v, 'digest': C.digest_of('nested', sc, sched.log), 'nontrivial': True, 'steps': sched.steps, 'sim_time': 0.0,
+            'faults': {}, 'probes': {'mode_nested': 1, 'nested_outer_%d' % n: 1},
+            'sample': {'mode': 'nested', 'outer': n, 'inner': m, 'fail_inner': fail}}
+
+
 def gen(t, tier):
+    if t.chance(0.03):
+        return _gen_nested(t)
     if t.chance(0.12):
         return _gen_callsite(t)
     api = t.pick(APIS)
@@ -197,6 +258,16 @@ def gen(t, tier):
 
 
 def shrink(sc):
+    if sc.get('kind') == 'nested':
+        if sc.get('fail_inner') is not None:
+            c = copy.deepcopy(sc)
+            c['fail_inner'] = None
+            yield c
+        if sc['yields']:
+            c = copy.deepcopy(sc)
+            c['yields'] = 0
+            yield c
+        return
     if sc.get('kind') == 'callsite':
         for i in range(len(sc['callers'])):
             if len(sc['callers']) > 1:
@@ -249,10 +320,14 @@ def shrink(sc):
 
 
 def run(sc, tape):
+    if sc.get('kind') == 'nested':
+        return _run_nested(sc, tape)
     if sc.get('kind') == 'callsite':
         return _run_callsite(sc, tape)
     from mapproxy.util import async_
+    from simkit.sched import simulate_module_primitives
     w = World(tape, policy=tuple(sc['policy']), step_cap=20000)
+    simulate_module_primitives(w, async_)
     start_state = {'n': 0, 'fired': False}
     if sc.get('start_fail') is not None:
         class RefusedWorker(async_.ThreadWorker):
